@@ -51,6 +51,8 @@ def pc_operand(row, rng):
         return {'t': 15}
     if row.sem and row.sem.startswith(('dp', 'adr')) and 'd' in f and len(f['d']) == 4:
         return {'d': 15}
+    if row.sem and row.sem.startswith('dp') and 'D' in f and len(f['D']) == 1 and 'd' in f and len(f['d']) == 3:
+        return {'D': 1, 'd': 7}       # the split high-register field of the 16-bit ADD / MOV (register): DN:Rdn = PC
     return None
 
 
